@@ -333,3 +333,42 @@ def struct_object_attrs(repo):
                         out.add(t.attr)
     repo._mro_cache[key] = out
     return out
+
+
+def path_facts(p):
+    """the literals known to hold on a path: the conjuncts of its guards plus what unit
+    propagation derives from disjunctions (``not (a and b)`` with ``a`` known gives ``not b``)"""
+    formulas = [g if pol else negate(g) for g, pol in p.guards]
+    facts = set()
+
+    def unit(f):
+        if isinstance(f, ast.UnaryOp) and isinstance(f.op, ast.Not):
+            n = negate(f.operand)
+            if not (isinstance(n, ast.UnaryOp) and isinstance(n.op, ast.Not)):
+                return unit(n)
+        if isinstance(f, ast.BoolOp) and isinstance(f.op, ast.And):
+            out = []
+            for v in f.values:
+                out.extend(unit(v))
+            return out
+        if isinstance(f, ast.BoolOp) and isinstance(f.op, ast.Or):
+            rest = [v for v in f.values if canon(negate(v)) not in facts]
+            if len(rest) == 1:
+                return unit(rest[0])
+            return [canon(f)]
+        if isinstance(f, ast.Compare) and len(f.ops) > 1:
+            out = []
+            for c in conj(f):
+                out.extend(unit(c))
+            return out
+        return [canon(f)]
+
+    changed = True
+    while changed:
+        changed = False
+        for f in formulas:
+            for lit in unit(f):
+                if lit not in facts:
+                    facts.add(lit)
+                    changed = True
+    return facts
